@@ -3,6 +3,7 @@
 //	edns replay <vectors.ndjson>       TLC vectors (operation sequences on an OPT header; message-level
 //	                                   RCODE split / join) -> real API, compared with the spec's values
 //	edns record <out.ndjson> <n>       random operations / messages through the real API, logged for Trace_Edns
+//	edns reexec <in.ndjson> <out.ndjson>   the inputs of recorded events once more through the real API (--replay)
 package main
 
 import (
@@ -132,6 +133,8 @@ func main() {
 	case "record":
 		n, _ := strconv.Atoi(os.Args[3])
 		record(os.Args[2], n)
+	case "reexec": // reexec <events-in> <events-out>: redo the recorded inputs against the real code
+		reexec(os.Args[2], os.Args[3])
 	default:
 		hx.Die("unknown mode %s", os.Args[1])
 	}
@@ -472,5 +475,80 @@ func record(out string, n int) {
 	}
 	w.Close()
 	sum.Nontrivial = len(seen)
+	sum.Print()
+}
+
+// redo fills the observation fields of e from its input fields by running the real code.
+func redo(e *event) {
+	switch e.Ev {
+	case "step":
+		o := newOpt(e.Pre.W, e.Pre.C)
+		apply(o, e.Op, e.V, e.Bs)
+		a := view(o)
+		e.Post = &a
+	case "setedns0":
+		m := new(dns.Msg)
+		for i := 0; i < e.N; i++ {
+			m.Extra = append(m.Extra, aRec())
+		}
+		m.SetEdns0(uint16(e.Udp), e.Do)
+		o := m.IsEdns0()
+		e.N2, e.Idx, e.View = len(m.Extra), optIndex(m, o), views(o)
+		if o != nil {
+			e.Name, e.Type, e.NOpts = hx.FromString(o.Hdr.Name), int(o.Hdr.Rrtype), len(o.Option)
+		}
+	case "pack":
+		m := buildMsg(e.Rcode, e.Shape, e.W0, e.C0)
+		o := m.IsEdns0()
+		e.Idx = optIndex(m, o)
+		wire, err := m.Pack()
+		e.Ok, e.Wire, e.After = err == nil, nil, nil
+		if err == nil {
+			e.Wire = hx.FromBytes(wire)
+			e.After = views(o)
+		}
+	case "unpack":
+		var m2 dns.Msg
+		uerr := m2.Unpack(e.Wire.Bytes())
+		e.Ok, e.Rcode, e.Idx, e.View = uerr == nil, 0, 0, nil
+		if uerr == nil {
+			o2 := m2.IsEdns0()
+			e.Rcode, e.Idx, e.View = m2.Rcode, optIndex(&m2, o2), views(o2)
+		}
+	default:
+		hx.Die("unknown event %q", e.Ev)
+	}
+}
+
+func norm(e *event) {
+	if e.Bs == nil {
+		e.Bs = []bool{}
+	}
+	if e.Shape == nil {
+		e.Shape = []string{}
+	}
+	if e.View == nil {
+		e.View = []View{}
+	}
+	if e.After == nil {
+		e.After = []View{}
+	}
+	if e.W0 == nil {
+		e.W0 = []int{0, 0, 0, 0}
+	}
+}
+
+func reexec(in, out string) {
+	var sum hx.Summary
+	w := hx.NewWriter(out)
+	hx.ReadNDJSON(in, func(i int, e *event) {
+		if p := hx.Catch(func() { redo(e) }); p != "" {
+			sum.Mis("edns/panic:"+e.Ev, "panic: "+p, e)
+		}
+		norm(e)
+		w.Emit(e)
+		sum.Evaluations++
+	})
+	w.Close()
 	sum.Print()
 }
